@@ -4,6 +4,7 @@ import Driver.Util
    c09 apply <opts> <now_ns> <perm|-> <snap;snap;…|->   -> ok idx:K|D:reason+reason,…   | err:InvalidInput
    c09 cal <t_ns> <off_s>                               -> ok y m d doy H M S isoY isoW wd
    c09 add <t_ns> <off_s> <span>                        -> ok <ns>
+   c09 mark <n|N|A<t>> <off> <now> <off>   -> ok k=<must_keep> d=<must_delete> f=<from_snapshots keep>
    c09 eq <t1> <off1> <t2> <off2>                       -> ok <8 bits: year half quarter month week day hour minute>
    span = p|n . years . months . weeks . days . time_ns ;  snap = t_ns:off_s:id8hex:tree:tags:del -/
 namespace Driver.C09
@@ -53,10 +54,7 @@ def parseOpts (s : String) : Option KeepOptions :=
   if s = "-" then some emptyOpts else (s.splitOn ",").foldlM parseOpt emptyOpts
 
 def mkSnap (t off : Int) (id : String) (tree : Nat) (tags : List String) (del : DeleteOpt) : Snap :=
-  let c := Civil.ofInstant t off
-  { time := t, off := off, year := c.year, month := c.month, doy := c.doy, hour := c.hour, minute := c.minute,
-    isoYear := c.isoYear, isoWeek := c.isoWeek, id := id ++ String.ofList (List.replicate (64 - id.length) '0'),
-    tags := tags, tree := tree, delete := del }
+  Snap.ofInstant t off (id ++ String.ofList (List.replicate (64 - id.length) '0')) tree tags del
 
 def parseDel (s : String) : Option DeleteOpt :=
   if s = "n" then some .notSet else if s = "N" then some .never
@@ -120,6 +118,15 @@ def handle : List String → String
       let bit (f : Snap → Snap → Bool) : String := if f a b then "1" else "0"
       "ok " ++ bit equalYear ++ bit equalHalfYear ++ bit equalQuarterYear ++ bit equalMonth ++ bit equalWeek
         ++ bit equalDay ++ bit equalHour ++ bit equalMinute
+    | _, _, _, _ => "bad-op"
+  | ["mark", del, doff, now, noff] =>
+    -- instants are compared, the two zone offsets are irrelevant (but must be numbers)
+    match parseDel del, doff.toInt?, now.toInt?, noff.toInt? with
+    | some d, some _, some now, some _ =>
+      let sn := mkSnap 0 0 "" 0 [] d
+      let b (x : Bool) : String := if x then "1" else "0"
+      -- `ForgetGroups::from_snapshots`: keep = must_keep
+      s!"ok k={b (mustKeep sn now)} d={b (mustDelete sn now)} f={b (mustKeep sn now)}"
     | _, _, _, _ => "bad-op"
   | _ => "bad-op"
 
